@@ -113,6 +113,7 @@ _TOK = re.compile(r"\s*(\[|\]|\(|\)|;|,|[^\s\[\]\(\);,]+)")
 
 def parse_coq_value(text):
     """Parse nested lists / tuples of nat, Z, bool, float printed by Coq."""
+    text = re.sub(r"%(nat|Z|float|N|positive|string|char)\b", "", text)
     toks = _TOK.findall(text)
     pos = [0]
 
